@@ -128,6 +128,10 @@ func (r *dataReader) Read(b []byte) (n int, err error) {
 				r.state = stateBeginLine
 				break
 			}
+			if c == '\r' {
+				// Still a candidate for the start of <CR><LF>.
+				break
+			}
 			r.state = stateData
 		case stateData:
 			if c == '\r' {
